@@ -168,7 +168,8 @@ theorem handleRedSibling_L {a : Arena V} (hsize : a.nodes.size ≤ EMPTY) {f : F
     (hnd : (tN.slots ++ ctxSlots (f :: K)).Nodup) :
     ∃ a', a.handleRedSibling n s = some a' ∧
       RepCtx a' (⟨.red, f.s, f.e, SL, .L⟩ :: ⟨.black, s, se, SR, .L⟩ :: K) n f.s ∧ Rep a' n f.s tN ∧
-      a'.unused = a.unused ∧ a'.cap = a.cap ∧ a'.dflt = a.dflt ∧ a'.nodes.size = a.nodes.size := by
+      a'.unused = a.unused ∧ a'.cap = a.cap ∧ a'.dflt = a.dflt ∧ a'.nodes.size = a.nodes.size ∧
+      (∀ x, x ∉ tN.slots ++ ctxSlots (f :: K) → a'.node x = a.node x) := by
   have hnidx := hn.idx
   obtain ⟨pp, hT, hK⟩ := Rep.fill hc hn
   simp only [Frame.fill, hside, hsib] at hT
@@ -214,8 +215,14 @@ theorem handleRedSibling_L {a : Arena V} (hsize : a.nodes.size ≤ EMPTY) {f : F
     simp only [a2, a1] at h2p
     rw [h2p]
     simp only [Option.bind_some, hpl, beq_self_eq_true, if_true, a2, a1]
-  obtain ⟨a3, hr3, hK3, hT3, _, _, hu3, hc3, hd3, hs3⟩ :=
+  obtain ⟨a3, hr3, hK3, hT3, hf3, _, hu3, hc3, hd3, hs3⟩ :=
     rotateLeft_rep (a := a2) (by simpa [a2, a1] using hsize) hK2 hT2 (by slots_tac hnd)
+  have hframe : ∀ x, x ∉ tN.slots ++ (f.s :: ((T.node .red SL s se SR).slots ++ ctxSlots K)) → a3.node x = a.node x := by
+    intro x hx
+    rw [hf3 x (by slots_tac hx)]
+    have h1 : x ≠ s := by slots_tac hx
+    have h2 : x ≠ f.s := by slots_tac hx
+    simp [a2, a1, Ne.symm h1, Ne.symm h2]
   obtain ⟨i, hc1, hr1⟩ := Rep.down_left hK3 hT3
   have hi : i = f.s := hr1.1
   subst hi
@@ -223,7 +230,8 @@ theorem handleRedSibling_L {a : Arena V} (hsize : a.nodes.size ≤ EMPTY) {f : F
   have hj : j = n := by rw [hr2.idx, hnidx]
   subst hj
   exact ⟨a3, by rw [hcode]; exact hr3, hc2, hr2, by rw [hu3]; simp [a2, a1], by rw [hc3]; simp [a2, a1],
-    by rw [hd3]; simp [a2, a1], by rw [hs3]; simp [a2, a1]⟩
+    by rw [hd3]; simp [a2, a1], by rw [hs3]; simp [a2, a1], fun x hx => hframe x (by
+      rwa [show ctxSlots (f :: K) = f.s :: ((T.node .red SL s se SR).slots ++ ctxSlots K) by simp [ctxSlots, hsib]] at hx)⟩
 
 end ITree
 
@@ -238,7 +246,8 @@ theorem handleRedSibling_R {a : Arena V} (hsize : a.nodes.size ≤ EMPTY) {f : F
     (hnd : (tN.slots ++ ctxSlots (f :: K)).Nodup) :
     ∃ a', a.handleRedSibling n s = some a' ∧
       RepCtx a' (⟨.red, f.s, f.e, SR, .R⟩ :: ⟨.black, s, se, SL, .R⟩ :: K) n f.s ∧ Rep a' n f.s tN ∧
-      a'.unused = a.unused ∧ a'.cap = a.cap ∧ a'.dflt = a.dflt ∧ a'.nodes.size = a.nodes.size := by
+      a'.unused = a.unused ∧ a'.cap = a.cap ∧ a'.dflt = a.dflt ∧ a'.nodes.size = a.nodes.size ∧
+      (∀ x, x ∉ tN.slots ++ ctxSlots (f :: K) → a'.node x = a.node x) := by
   have hnidx := hn.idx
   obtain ⟨pp, hT, hK⟩ := Rep.fill hc hn
   simp only [Frame.fill, hside, hsib] at hT
@@ -284,8 +293,14 @@ theorem handleRedSibling_R {a : Arena V} (hsize : a.nodes.size ≤ EMPTY) {f : F
     rw [h2p]
     have hnl' : (n == pn.left) = false := by rw [hsi]; simpa using hns
     simp only [Option.bind_some, hnl', Bool.false_eq_true, if_false, a2, a1]
-  obtain ⟨a3, hr3, hK3, hT3, _, _, hu3, hc3, hd3, hs3⟩ :=
+  obtain ⟨a3, hr3, hK3, hT3, hf3, _, hu3, hc3, hd3, hs3⟩ :=
     rotateRight_rep (a := a2) (by simpa [a2, a1] using hsize) hK2 hT2 (by slots_tac hnd)
+  have hframe : ∀ x, x ∉ tN.slots ++ (f.s :: ((T.node .red SL s se SR).slots ++ ctxSlots K)) → a3.node x = a.node x := by
+    intro x hx
+    rw [hf3 x (by slots_tac hx)]
+    have h1 : x ≠ s := by slots_tac hx
+    have h2 : x ≠ f.s := by slots_tac hx
+    simp [a2, a1, Ne.symm h1, Ne.symm h2]
   obtain ⟨i, hc1, hr1⟩ := Rep.down_right hK3 hT3
   have hi : i = f.s := hr1.1
   subst hi
@@ -293,7 +308,8 @@ theorem handleRedSibling_R {a : Arena V} (hsize : a.nodes.size ≤ EMPTY) {f : F
   have hj : j = n := by rw [hr2.idx, hnidx]
   subst hj
   exact ⟨a3, by rw [hcode]; exact hr3, hc2, hr2, by rw [hu3]; simp [a2, a1], by rw [hc3]; simp [a2, a1],
-    by rw [hd3]; simp [a2, a1], by rw [hs3]; simp [a2, a1]⟩
+    by rw [hd3]; simp [a2, a1], by rw [hs3]; simp [a2, a1], fun x hx => hframe x (by
+      rwa [show ctxSlots (f :: K) = f.s :: ((T.node .red SL s se SR).slots ++ ctxSlots K) by simp [ctxSlots, hsib]] at hx)⟩
 
 end ITree
 
@@ -316,7 +332,8 @@ theorem handleBlackSibling_L5 {a : Arena V} (hsize : a.nodes.size ≤ EMPTY) {f 
     ∃ a', a.handleBlackSibling n s = some a' ∧
       RepCtx a' (⟨.black, f.s, f.e, SLL, .L⟩ :: ⟨f.c, sl, el, .node .black SLR s se SR, .L⟩ :: K) n f.s ∧
       Rep a' n f.s tN ∧
-      a'.unused = a.unused ∧ a'.cap = a.cap ∧ a'.dflt = a.dflt ∧ a'.nodes.size = a.nodes.size := by
+      a'.unused = a.unused ∧ a'.cap = a.cap ∧ a'.dflt = a.dflt ∧ a'.nodes.size = a.nodes.size ∧
+      (∀ x, x ∉ tN.slots ++ ctxSlots (f :: K) → a'.node x = a.node x) := by
   have hnidx := hn.idx
   obtain ⟨hnmem, nn, hnn, hnnp⟩ := hn.node_mem hnl
   obtain ⟨pp, hT, hK⟩ := Rep.fill hc hn
@@ -350,7 +367,7 @@ theorem handleBlackSibling_L5 {a : Arena V} (hsize : a.nodes.size ≤ EMPTY) {f 
   have hS2 : Rep a2 i f.s (.node .red (.node .black SLL sl el SLR) i se SR) :=
     Rep.setRed_root hS1 (by slots_tac hnd) rfl
   have hcS2 : RepCtx a2 ((⟨f.c, f.s, f.e, tN, .R⟩ : Frame (Ent V)) :: K) i f.s := hcS1.upd_other _ (by slots_tac hnd)
-  obtain ⟨a3, hr3, hcS3, hS3, _, _, hu3, hc3, hd3, hs3⟩ :=
+  obtain ⟨a3, hr3, hcS3, hS3, hf3, _, hu3, hc3, hd3, hs3⟩ :=
     rotateRight_rep (a := a2) (by simpa [a2, a1] using hsize) hcS2 hS2 (by slots_tac hnd)
   -- back to the parent
   obtain ⟨pp3, hT3', hK3⟩ := Rep.fill hcS3 hS3
@@ -374,8 +391,17 @@ theorem handleBlackSibling_L5 {a : Arena V} (hsize : a.nodes.size ≤ EMPTY) {f 
     Rep.setRed_rr hT5 (by slots_tac hnd) rfl
   have hK6 : RepCtx a6 K f.s pp3 :=
     ((hK3.upd_other _ (by slots_tac hnd)).upd_other _ (by slots_tac hnd)).upd_other _ (by slots_tac hnd)
-  obtain ⟨a7, hr7, hK7, hT7, _, _, hu7, hc7, hd7, hs7⟩ :=
+  obtain ⟨a7, hr7, hK7, hT7, hf7, _, hu7, hc7, hd7, hs7⟩ :=
     rotateLeft_rep (a := a6) (by simpa [a6, a5, a4] using hsize3) hK6 hT6 (by slots_tac hnd)
+  have hframe : ∀ x, x ∉ tN.slots ++ (f.s :: ((T.node cS (.node cl SLL sl el SLR) i se SR).slots ++ ctxSlots K)) → a7.node x = a.node x := by
+    intro x hx
+    rw [hf7 x (by slots_tac hx)]
+    have h1 : x ≠ sl := by slots_tac hx
+    have h2 : x ≠ f.s := by slots_tac hx
+    have h3 : x ≠ i := by slots_tac hx
+    have e6 : a6.node x = a3.node x := by simp [a6, a5, a4, Ne.symm h1, Ne.symm h2, Ne.symm h3]
+    rw [e6, hf3 x (by slots_tac hx)]
+    simp [a2, a1, Ne.symm h1, Ne.symm h3]
   obtain ⟨j, hc8, hr8⟩ := Rep.down_left hK7 hT7
   have hj : j = f.s := hr8.1
   subst hj
@@ -405,7 +431,8 @@ theorem handleBlackSibling_L5 {a : Arena V} (hsize : a.nodes.size ≤ EMPTY) {f 
   · rw [hu7]; simp only [a6, a5, a4, Arena.unused_upd]; rw [hu3]; simp [a2, a1]
   · rw [hc7]; simp only [a6, a5, a4, Arena.cap_upd]; rw [hc3]; simp [a2, a1]
   · rw [hd7]; simp only [a6, a5, a4, Arena.dflt_upd]; rw [hd3]; simp [a2, a1]
-  · rw [hs7]; simp only [a6, a5, a4, Arena.size_upd]; rw [hs3]; simp [a2, a1]
+  · refine ⟨by rw [hs7]; simp only [a6, a5, a4, Arena.size_upd]; rw [hs3]; simp [a2, a1], fun x hx => hframe x (by
+      rwa [show ctxSlots (f :: K) = f.s :: ((T.node cS (.node cl SLL sl el SLR) i se SR).slots ++ ctxSlots K) by simp [ctxSlots, hsib]] at hx)⟩
 
 end ITree
 
@@ -421,7 +448,8 @@ theorem handleBlackSibling_L6 {a : Arena V} (hsize : a.nodes.size ≤ EMPTY) {f 
     ∃ a', a.handleBlackSibling n s = some a' ∧
       RepCtx a' (⟨.black, f.s, f.e, SL, .L⟩ :: ⟨f.c, s, se, .node .black SRL sr er SRR, .L⟩ :: K) n f.s ∧
       Rep a' n f.s tN ∧
-      a'.unused = a.unused ∧ a'.cap = a.cap ∧ a'.dflt = a.dflt ∧ a'.nodes.size = a.nodes.size := by
+      a'.unused = a.unused ∧ a'.cap = a.cap ∧ a'.dflt = a.dflt ∧ a'.nodes.size = a.nodes.size ∧
+      (∀ x, x ∉ tN.slots ++ ctxSlots (f :: K) → a'.node x = a.node x) := by
   have hnidx := hn.idx
   obtain ⟨hnmem, nn, hnn, hnnp⟩ := hn.node_mem hnl
   obtain ⟨pp, hT, hK⟩ := Rep.fill hc hn
@@ -452,8 +480,15 @@ theorem handleBlackSibling_L6 {a : Arena V} (hsize : a.nodes.size ≤ EMPTY) {f 
     Rep.setRed_rr hT2 (by slots_tac hnd) rfl
   have hK3 : RepCtx a3 K f.s pp :=
     ((hK.upd_other _ (by slots_tac hnd)).upd_other _ (by slots_tac hnd)).upd_other _ (by slots_tac hnd)
-  obtain ⟨a4, hr4, hK4, hT4, _, _, hu4, hc4, hd4, hs4⟩ :=
+  obtain ⟨a4, hr4, hK4, hT4, hf4, _, hu4, hc4, hd4, hs4⟩ :=
     rotateLeft_rep (a := a3) (by simpa [a3, a2, a1] using hsize) hK3 hT3 (by slots_tac hnd)
+  have hframe : ∀ x, x ∉ tN.slots ++ (f.s :: ((T.node cS SL s se (.node .red SRL sr er SRR)).slots ++ ctxSlots K)) → a4.node x = a.node x := by
+    intro x hx
+    rw [hf4 x (by slots_tac hx)]
+    have h1 : x ≠ s := by slots_tac hx
+    have h2 : x ≠ f.s := by slots_tac hx
+    have h3 : x ≠ sr := by slots_tac hx
+    simp [a3, a2, a1, Ne.symm h1, Ne.symm h2, Ne.symm h3]
   obtain ⟨j, hc5, hr5⟩ := Rep.down_left hK4 hT4
   have hj : j = f.s := hr5.1
   subst hj
@@ -471,7 +506,8 @@ theorem handleBlackSibling_L6 {a : Arena V} (hsize : a.nodes.size ≤ EMPTY) {f 
     rw [hsri, Arena.setRed_eq _ (by simpa using hsrlt)]
     simp only [Option.bind_some, a3, a2, a1]
   exact ⟨a4, by rw [hcode]; exact hr4, hc6, hr6, by rw [hu4]; simp [a3, a2, a1], by rw [hc4]; simp [a3, a2, a1],
-    by rw [hd4]; simp [a3, a2, a1], by rw [hs4]; simp [a3, a2, a1]⟩
+    by rw [hd4]; simp [a3, a2, a1], by rw [hs4]; simp [a3, a2, a1], fun x hx => hframe x (by
+      rwa [show ctxSlots (f :: K) = f.s :: ((T.node cS SL s se (.node .red SRL sr er SRR)).slots ++ ctxSlots K) by simp [ctxSlots, hsib]] at hx)⟩
 
 end ITree
 
@@ -487,7 +523,8 @@ theorem handleBlackSibling_R5 {a : Arena V} (hsize : a.nodes.size ≤ EMPTY) {f 
     ∃ a', a.handleBlackSibling n s = some a' ∧
       RepCtx a' (⟨.black, f.s, f.e, SRR, .R⟩ :: ⟨f.c, sr, er, .node .black SL s se SRL, .R⟩ :: K) n f.s ∧
       Rep a' n f.s tN ∧
-      a'.unused = a.unused ∧ a'.cap = a.cap ∧ a'.dflt = a.dflt ∧ a'.nodes.size = a.nodes.size := by
+      a'.unused = a.unused ∧ a'.cap = a.cap ∧ a'.dflt = a.dflt ∧ a'.nodes.size = a.nodes.size ∧
+      (∀ x, x ∉ tN.slots ++ ctxSlots (f :: K) → a'.node x = a.node x) := by
   have hnidx := hn.idx
   obtain ⟨hnmem, nn, hnn, hnnp⟩ := hn.node_mem hnl
   obtain ⟨pp, hT, hK⟩ := Rep.fill hc hn
@@ -523,7 +560,7 @@ theorem handleBlackSibling_R5 {a : Arena V} (hsize : a.nodes.size ≤ EMPTY) {f 
   have hS2 : Rep a2 i f.s (.node .red SL i se (.node .black SRL sr er SRR)) :=
     Rep.setRed_root hS1 (by slots_tac hnd) rfl
   have hcS2 : RepCtx a2 ((⟨f.c, f.s, f.e, tN, .L⟩ : Frame (Ent V)) :: K) i f.s := hcS1.upd_other _ (by slots_tac hnd)
-  obtain ⟨a3, hr3, hcS3, hS3, _, _, hu3, hc3, hd3, hs3⟩ :=
+  obtain ⟨a3, hr3, hcS3, hS3, hf3, _, hu3, hc3, hd3, hs3⟩ :=
     rotateLeft_rep (a := a2) (by simpa [a2, a1] using hsize) hcS2 hS2 (by slots_tac hnd)
   -- back to the parent
   obtain ⟨pp3, hT3', hK3⟩ := Rep.fill hcS3 hS3
@@ -547,8 +584,17 @@ theorem handleBlackSibling_R5 {a : Arena V} (hsize : a.nodes.size ≤ EMPTY) {f 
     Rep.setRed_ll hT5 (by slots_tac hnd) rfl
   have hK6 : RepCtx a6 K f.s pp3 :=
     ((hK3.upd_other _ (by slots_tac hnd)).upd_other _ (by slots_tac hnd)).upd_other _ (by slots_tac hnd)
-  obtain ⟨a7, hr7, hK7, hT7, _, _, hu7, hc7, hd7, hs7⟩ :=
+  obtain ⟨a7, hr7, hK7, hT7, hf7, _, hu7, hc7, hd7, hs7⟩ :=
     rotateRight_rep (a := a6) (by simpa [a6, a5, a4] using hsize3) hK6 hT6 (by slots_tac hnd)
+  have hframe : ∀ x, x ∉ tN.slots ++ (f.s :: ((T.node cS SL i se (.node cr SRL sr er SRR)).slots ++ ctxSlots K)) → a7.node x = a.node x := by
+    intro x hx
+    rw [hf7 x (by slots_tac hx)]
+    have h1 : x ≠ sr := by slots_tac hx
+    have h2 : x ≠ f.s := by slots_tac hx
+    have h3 : x ≠ i := by slots_tac hx
+    have e6 : a6.node x = a3.node x := by simp [a6, a5, a4, Ne.symm h1, Ne.symm h2, Ne.symm h3]
+    rw [e6, hf3 x (by slots_tac hx)]
+    simp [a2, a1, Ne.symm h1, Ne.symm h3]
   obtain ⟨j, hc8, hr8⟩ := Rep.down_right hK7 hT7
   have hj : j = f.s := hr8.1
   subst hj
@@ -578,7 +624,8 @@ theorem handleBlackSibling_R5 {a : Arena V} (hsize : a.nodes.size ≤ EMPTY) {f 
   · rw [hu7]; simp only [a6, a5, a4, Arena.unused_upd]; rw [hu3]; simp [a2, a1]
   · rw [hc7]; simp only [a6, a5, a4, Arena.cap_upd]; rw [hc3]; simp [a2, a1]
   · rw [hd7]; simp only [a6, a5, a4, Arena.dflt_upd]; rw [hd3]; simp [a2, a1]
-  · rw [hs7]; simp only [a6, a5, a4, Arena.size_upd]; rw [hs3]; simp [a2, a1]
+  · refine ⟨by rw [hs7]; simp only [a6, a5, a4, Arena.size_upd]; rw [hs3]; simp [a2, a1], fun x hx => hframe x (by
+      rwa [show ctxSlots (f :: K) = f.s :: ((T.node cS SL i se (.node cr SRL sr er SRR)).slots ++ ctxSlots K) by simp [ctxSlots, hsib]] at hx)⟩
 
 /-- `handle_black_sibling…`, right, outer nephew red (case 6 only, mirrored) -/
 theorem handleBlackSibling_R6 {a : Arena V} (hsize : a.nodes.size ≤ EMPTY) {f : Frame (Ent V)} {K : Ctx (Ent V)}
@@ -589,7 +636,8 @@ theorem handleBlackSibling_R6 {a : Arena V} (hsize : a.nodes.size ≤ EMPTY) {f 
     ∃ a', a.handleBlackSibling n s = some a' ∧
       RepCtx a' (⟨.black, f.s, f.e, SR, .R⟩ :: ⟨f.c, s, se, .node .black SLL sl el SLR, .R⟩ :: K) n f.s ∧
       Rep a' n f.s tN ∧
-      a'.unused = a.unused ∧ a'.cap = a.cap ∧ a'.dflt = a.dflt ∧ a'.nodes.size = a.nodes.size := by
+      a'.unused = a.unused ∧ a'.cap = a.cap ∧ a'.dflt = a.dflt ∧ a'.nodes.size = a.nodes.size ∧
+      (∀ x, x ∉ tN.slots ++ ctxSlots (f :: K) → a'.node x = a.node x) := by
   have hnidx := hn.idx
   obtain ⟨hnmem, nn, hnn, hnnp⟩ := hn.node_mem hnl
   obtain ⟨pp, hT, hK⟩ := Rep.fill hc hn
@@ -623,8 +671,15 @@ theorem handleBlackSibling_R6 {a : Arena V} (hsize : a.nodes.size ≤ EMPTY) {f 
     Rep.setRed_ll hT2 (by slots_tac hnd) rfl
   have hK3 : RepCtx a3 K f.s pp :=
     ((hK.upd_other _ (by slots_tac hnd)).upd_other _ (by slots_tac hnd)).upd_other _ (by slots_tac hnd)
-  obtain ⟨a4, hr4, hK4, hT4, _, _, hu4, hc4, hd4, hs4⟩ :=
+  obtain ⟨a4, hr4, hK4, hT4, hf4, _, hu4, hc4, hd4, hs4⟩ :=
     rotateRight_rep (a := a3) (by simpa [a3, a2, a1] using hsize) hK3 hT3 (by slots_tac hnd)
+  have hframe : ∀ x, x ∉ tN.slots ++ (f.s :: ((T.node cS (.node .red SLL sl el SLR) s se SR).slots ++ ctxSlots K)) → a4.node x = a.node x := by
+    intro x hx
+    rw [hf4 x (by slots_tac hx)]
+    have h1 : x ≠ s := by slots_tac hx
+    have h2 : x ≠ f.s := by slots_tac hx
+    have h3 : x ≠ sl := by slots_tac hx
+    simp [a3, a2, a1, Ne.symm h1, Ne.symm h2, Ne.symm h3]
   obtain ⟨j, hc5, hr5⟩ := Rep.down_right hK4 hT4
   have hj : j = f.s := hr5.1
   subst hj
@@ -641,7 +696,8 @@ theorem handleBlackSibling_R6 {a : Arena V} (hsize : a.nodes.size ≤ EMPTY) {f 
     rw [hsli, Arena.setRed_eq _ (by simpa using hsllt)]
     simp only [Option.bind_some, a3, a2, a1]
   exact ⟨a4, by rw [hcode]; exact hr4, hc6, hr6, by rw [hu4]; simp [a3, a2, a1], by rw [hc4]; simp [a3, a2, a1],
-    by rw [hd4]; simp [a3, a2, a1], by rw [hs4]; simp [a3, a2, a1]⟩
+    by rw [hd4]; simp [a3, a2, a1], by rw [hs4]; simp [a3, a2, a1], fun x hx => hframe x (by
+      rwa [show ctxSlots (f :: K) = f.s :: ((T.node cS (.node .red SLL sl el SLR) s se SR).slots ++ ctxSlots K) by simp [ctxSlots, hsib]] at hx)⟩
 
 end ITree
 
@@ -655,7 +711,8 @@ def FixDeleteSpec (fuel : Nat) : Prop :=
     (tN.slots ++ ctxSlots k).Nodup →
     ∀ k' d', fixUpD k true = some (k', d') →
     ∃ a', Arena.fixDelete fuel a n = some a' ∧ RepCtx a' k' n p ∧ Rep a' n p tN ∧
-      a'.unused = a.unused ∧ a'.cap = a.cap ∧ a'.dflt = a.dflt ∧ a'.nodes.size = a.nodes.size
+      a'.unused = a.unused ∧ a'.cap = a.cap ∧ a'.dflt = a.dflt ∧ a'.nodes.size = a.nodes.size ∧
+      (∀ x, x ∉ tN.slots ++ ctxSlots k → a'.node x = a.node x)
 
 theorem T.isBlack_red (l : T (Ent V)) (s : Nat) (e : Ent V) (r : T (Ent V)) :
     (T.node .red l s e r).isBlack = false := rfl
@@ -678,7 +735,8 @@ theorem fixTail_rep {fuel : Nat} (ih : FixDeleteSpec (V := V) fuel) {a : Arena V
     {fs : Ctx (Ent V)} {d : Bool} (hm : fixBlackSib f = some (fs, d))
     {r : Ctx (Ent V)} {d' : Bool} (hr : fixUpD K d = some (r, d')) :
     ∃ a', Arena.fixTail fuel a n s = some a' ∧ RepCtx a' (fs ++ r) n f.s ∧ Rep a' n f.s tN ∧
-      a'.unused = a.unused ∧ a'.cap = a.cap ∧ a'.dflt = a.dflt ∧ a'.nodes.size = a.nodes.size := by
+      a'.unused = a.unused ∧ a'.cap = a.cap ∧ a'.dflt = a.dflt ∧ a'.nodes.size = a.nodes.size ∧
+      (∀ x, x ∉ tN.slots ++ ctxSlots (f :: K) → a'.node x = a.node x) := by
   have hnidx := hn.idx
   obtain ⟨hnmem, nn, hnn, hnnp⟩ := hn.node_mem hnl
   obtain ⟨pp, hT, hK⟩ := Rep.fill hc hn
@@ -741,7 +799,13 @@ theorem fixTail_rep {fuel : Nat} (ih : FixDeleteSpec (V := V) fuel) {a : Arena V
           simp only [Frame.fill, hs] at hT1 ⊢
           exact Rep.setRed_root hT1 (by slots_tac hnd) rfl
       refine ⟨a2, Arena.setRed_eq _ (by simpa [a1] using hplt), ?_, ?_, by simp [a2, a1], by simp [a2, a1],
-        by simp [a2, a1], by simp [a2, a1]⟩
+        by simp [a2, a1], by simp [a2, a1], ?_⟩
+      rotate_left 2
+      · intro x hx
+        rw [show ctxSlots (f :: K) = f.s :: ((T.node cS SL s se SR).slots ++ ctxSlots K) by simp [ctxSlots, hsib]] at hx
+        have h1 : x ≠ s := by slots_tac hx
+        have h2 : x ≠ f.s := by slots_tac hx
+        simp [a2, a1, Ne.symm h1, Ne.symm h2]
       · cases hs : f.side with
         | L =>
           simp only [Frame.fill, hs] at hT2
@@ -782,9 +846,18 @@ theorem fixTail_rep {fuel : Nat} (ih : FixDeleteSpec (V := V) fuel) {a : Arena V
         cases hs : f.side with
         | L => simp only [Frame.fill, hs]; slots_tac hnd
         | R => simp only [Frame.fill, hs]; slots_tac hnd
-      obtain ⟨a', h1, h2, h3, h4, h5, h6, h7⟩ := ih a1 K _ f.s pp (by simpa [a1] using hsize) (hfuel hblack) hK1 hT1
+      obtain ⟨a', h1, h2, h3, h4, h5, h6, h7, h8⟩ := ih a1 K _ f.s pp (by simpa [a1] using hsize) (hfuel hblack) hK1 hT1
         (fill_ne_leaf _ _) hnd1 r d' hr
-      refine ⟨a', h1, ?_, ?_, by rw [h4]; simp [a1], by rw [h5]; simp [a1], by rw [h6]; simp [a1], by rw [h7]; simp [a1]⟩
+      refine ⟨a', h1, ?_, ?_, by rw [h4]; simp [a1], by rw [h5]; simp [a1], by rw [h6]; simp [a1], by rw [h7]; simp [a1], ?_⟩
+      rotate_left 2
+      · intro x hx
+        rw [show ctxSlots (f :: K) = f.s :: ((T.node cS SL s se SR).slots ++ ctxSlots K) by simp [ctxSlots, hsib]] at hx
+        have h1' : x ≠ s := by slots_tac hx
+        rw [h8 x (by
+          cases hs : f.side with
+          | L => simp only [Frame.fill, hs]; slots_tac hx
+          | R => simp only [Frame.fill, hs]; slots_tac hx)]
+        simp [a1, Ne.symm h1']
       · rw [hfe]
         cases hs : f.side with
         | L =>
@@ -906,7 +979,7 @@ theorem fixDelete_rep : ∀ fuel, FixDeleteSpec (V := V) fuel := by
       simp only [fixUpD, Option.some.injEq, Prod.mk.injEq] at hm
       obtain ⟨rfl, rfl⟩ := hm
       have hroot := hc.2
-      refine ⟨a, ?_, hc, hn, rfl, rfl, rfl, rfl⟩
+      refine ⟨a, ?_, hc, hn, rfl, rfl, rfl, rfl, fun _ _ => rfl⟩
       rw [fixDelete_eq]; simp [hroot]
     | cons f K =>
       have hp : p = f.s := hc.1
@@ -966,7 +1039,7 @@ theorem fixDelete_rep : ∀ fuel, FixDeleteSpec (V := V) fuel := by
           obtain ⟨rfl, rfl⟩ := hr
           have hd0 : d0 = false := fixBlackSib_red_parent hb rfl
           subst hd0
-          obtain ⟨a1, h1, hc1, hn1, hu1, hcap1, hd1, hs1⟩ := handleRedSibling_L hsize hs hsib hc hn hnl hnd
+          obtain ⟨a1, h1, hc1, hn1, hu1, hcap1, hd1, hs1, hfr1⟩ := handleRedSibling_L hsize hs hsib hc hn hnl hnd
           have hsize1 : a1.nodes.size ≤ EMPTY := by rw [hs1]; exact hsize
           have hnd1 : (tN.slots ++ ctxSlots ((⟨.red, f.s, f.e, SL, .L⟩ : Frame (Ent V)) :: ⟨.black, s, se, SR, .L⟩ :: K)).Nodup := by
             rw [show ctxSlots (f :: K) = f.s :: ((T.node .red SL s se SR).slots ++ ctxSlots K) by simp [ctxSlots, hsib]] at hnd
@@ -979,12 +1052,16 @@ theorem fixDelete_rep : ∀ fuel, FixDeleteSpec (V := V) fuel := by
           subst hSL
           have hs1' : s1 = s1' := hS1.1
           subst hs1'
-          obtain ⟨a', h2, hc2, hn2, hu2, hcap2, hd2, hs2⟩ :=
+          obtain ⟨a', h2, hc2, hn2, hu2, hcap2, hd2, hs2, hfr2⟩ :=
             fixTail_rep (f := ⟨.red, f.s, f.e, _, .L⟩) ih hsize1 (fun h => by cases h) rfl hc1 hn1 hnl hnd1 hb
               (fixUpD_false _)
-          refine ⟨a', ?_, by simpa using hc2, hn2, by rw [hu2, hu1], by rw [hcap2, hcap1], by rw [hd2, hd1], by rw [hs2, hs1]⟩
-          simp only [h1, Option.bind_some, hgs1]
-          exact h2
+          refine ⟨a', ?_, by simpa using hc2, hn2, by rw [hu2, hu1], by rw [hcap2, hcap1], by rw [hd2, hd1], by rw [hs2, hs1], ?_⟩
+          · simp only [h1, Option.bind_some, hgs1]
+            exact h2
+          · intro x hx
+            rw [hfr2 x (by
+              rw [show ctxSlots (f :: K) = f.s :: (f.sib.slots ++ ctxSlots K) by simp [ctxSlots], hsib] at hx
+              slots_tac hx), hfr1 x hx]
         | R =>
           simp only [fixFrame, hsib, hs] at hff
           cases hb : fixBlackSib (⟨.red, f.s, f.e, SR, .R⟩ : Frame (Ent V)) with
@@ -999,7 +1076,7 @@ theorem fixDelete_rep : ∀ fuel, FixDeleteSpec (V := V) fuel := by
           obtain ⟨rfl, rfl⟩ := hr
           have hd0 : d0 = false := fixBlackSib_red_parent hb rfl
           subst hd0
-          obtain ⟨a1, h1, hc1, hn1, hu1, hcap1, hd1, hs1⟩ := handleRedSibling_R hsize hs hsib hc hn hnl hnd
+          obtain ⟨a1, h1, hc1, hn1, hu1, hcap1, hd1, hs1, hfr1⟩ := handleRedSibling_R hsize hs hsib hc hn hnl hnd
           have hsize1 : a1.nodes.size ≤ EMPTY := by rw [hs1]; exact hsize
           have hnd1 : (tN.slots ++ ctxSlots ((⟨.red, f.s, f.e, SR, .R⟩ : Frame (Ent V)) :: ⟨.black, s, se, SL, .R⟩ :: K)).Nodup := by
             rw [show ctxSlots (f :: K) = f.s :: ((T.node .red SL s se SR).slots ++ ctxSlots K) by simp [ctxSlots, hsib]] at hnd
@@ -1012,12 +1089,16 @@ theorem fixDelete_rep : ∀ fuel, FixDeleteSpec (V := V) fuel := by
           subst hSR
           have hs1' : s1 = s1' := hS1.1
           subst hs1'
-          obtain ⟨a', h2, hc2, hn2, hu2, hcap2, hd2, hs2⟩ :=
+          obtain ⟨a', h2, hc2, hn2, hu2, hcap2, hd2, hs2, hfr2⟩ :=
             fixTail_rep (f := ⟨.red, f.s, f.e, _, .R⟩) ih hsize1 (fun h => by cases h) rfl hc1 hn1 hnl hnd1 hb
               (fixUpD_false _)
-          refine ⟨a', ?_, by simpa using hc2, hn2, by rw [hu2, hu1], by rw [hcap2, hcap1], by rw [hd2, hd1], by rw [hs2, hs1]⟩
-          simp only [h1, Option.bind_some, hgs1]
-          exact h2
+          refine ⟨a', ?_, by simpa using hc2, hn2, by rw [hu2, hu1], by rw [hcap2, hcap1], by rw [hd2, hd1], by rw [hs2, hs1], ?_⟩
+          · simp only [h1, Option.bind_some, hgs1]
+            exact h2
+          · intro x hx
+            rw [hfr2 x (by
+              rw [show ctxSlots (f :: K) = f.s :: (f.sib.slots ++ ctxSlots K) by simp [ctxSlots], hsib] at hx
+              slots_tac hx), hfr1 x hx]
 
 end ITree
 
@@ -1131,7 +1212,8 @@ theorem unlink_child {a : Arena V} (hsize : a.nodes.size ≤ EMPTY) {KK : Ctx (E
     {KK' : Ctx (Ent V)} (hm : fixUp KK true = some KK') :
     ∃ a', (a.replaceParentsChild p del c).bind (fun a1 => Arena.fixDelete (a.nodes.size + 1) a1 c) = some a' ∧
       Rep a' a'.root EMPTY (plug KK' tC) ∧
-      a'.unused = a.unused ∧ a'.cap = a.cap ∧ a'.dflt = a.dflt ∧ a'.nodes.size = a.nodes.size := by
+      a'.unused = a.unused ∧ a'.cap = a.cap ∧ a'.dflt = a.dflt ∧ a'.nodes.size = a.nodes.size ∧
+      (∀ x, x ∉ tC.slots ++ ctxSlots KK → a'.node x = a.node x) := by
   cases tC with
   | leaf => exact absurd rfl hCnl
   | node cc lc sc ec rc =>
@@ -1162,10 +1244,15 @@ theorem unlink_child {a : Arena V} (hsize : a.nodes.size ≤ EMPTY) {KK : Ctx (E
   simp only [hfu, Option.map_some, Option.some.injEq] at hm
   subst hm
   have hfuel : KK.length < a.nodes.size + 1 := ctx_fuel hc (by slots_tac hnd)
-  obtain ⟨a2, h2, hc2, hn2, hu2, hcap2, hd2, hs2⟩ := fixDelete_rep (a.nodes.size + 1) a1 KK _ c p
+  obtain ⟨a2, h2, hc2, hn2, hu2, hcap2, hd2, hs2, hfr2⟩ := fixDelete_rep (a.nodes.size + 1) a1 KK _ c p
     (by rw [hs1]; exact hsize) hfuel hc1 hC1 (by simp) (by slots_tac hnd) K2 d2 hfu
-  exact ⟨a2, by rw [h1]; exact h2, Rep.plug hc2 hn2, by rw [hu2, hu1], by rw [hcap2, hcap1], by rw [hd2, hd1],
-    by rw [hs2, hs1]⟩
+  refine ⟨a2, by rw [h1]; exact h2, Rep.plug hc2 hn2, by rw [hu2, hu1], by rw [hcap2, hcap1], by rw [hd2, hd1],
+    by rw [hs2, hs1], ?_⟩
+  intro x hx
+  rw [hfr2 x hx]
+  by_cases hxl : x < a.nodes.size
+  · exact hoth1 x (by slots_tac hx) (Ne.symm (hpne x hxl (by slots_tac hx)))
+  · exact node_eq_of_size hs1 (by omega)
 
 end ITree
 
@@ -1183,6 +1270,10 @@ theorem fixUpD_slots {k k' : Ctx (Ent V)} {d d' : Bool} (h : fixUpD k d = some (
   simp only [T.slots_leaf, List.nil_append] at p1 p2
   exact p1.symm.trans (e ▸ p2)
 
+/-- the scratch slot 0 never links to a real node -/
+def ZeroOK (a : Arena V) : Prop :=
+  ∀ n, a.node 0 = some n → (n.left = 0 ∨ n.left = EMPTY) ∧ (n.right = 0 ∨ n.right = EMPTY)
+
 /-- **the second half of `delete_index`** (unlink a node with at most one child, repair, free its slot) -/
 theorem unlink_rep {a : Arena V} (hsize : a.nodes.size ≤ EMPTY) {KK : Ctx (Ent V)} {cD : Color} {lD rD : T (Ent V)}
     {eD : Ent V} {del p : Nat}
@@ -1191,7 +1282,8 @@ theorem unlink_rep {a : Arena V} (hsize : a.nodes.size ≤ EMPTY) {KK : Ctx (Ent
     (h0 : 0 < a.nodes.size) (h0s : 0 ∉ (T.node cD lD del eD rD).slots ++ ctxSlots KK)
     {KK' : Ctx (Ent V)} {repl : T (Ent V)} (hm : unlinkM KK cD lD rD = some (KK', repl)) :
     ∃ a', a.unlink del lD.rootIdx rD.rootIdx p (isRedC cD) = some a' ∧ Rep a' a'.root EMPTY (plug KK' repl) ∧
-      poolOf a' = (poolOf a).free del ∧ a'.nodes.size = a.nodes.size ∧ a'.dflt = a.dflt := by
+      poolOf a' = (poolOf a).free del ∧ a'.nodes.size = a.nodes.size ∧ a'.dflt = a.dflt ∧
+      (∀ x, x ∉ lD.slots ++ rD.slots ++ ctxSlots KK → x ≠ 0 → a'.node x = a.node x) ∧ (ZeroOK a → ZeroOK a') := by
   obtain ⟨_, nd, hdel, hdp, hdr, hde, hl, hrr⟩ := hr
   have hdlt := node_lt hdel
   cases lD with
@@ -1206,13 +1298,17 @@ theorem unlink_rep {a : Arena V} (hsize : a.nodes.size ≤ EMPTY) {KK : Ctx (Ent
     rw [hli] at hl
     have := node_lt hl.2.choose_spec.1
     have hne : (sl != EMPTY) = true := by simp; omega
-    obtain ⟨a', h1, h2, hu, hcap, hd, hs⟩ := unlink_child hsize hc hdel hl (by simp) (by slots_tac hnd) hfu
+    obtain ⟨a', h1, h2, hu, hcap, hd, hs, hfr⟩ := unlink_child hsize hc hdel hl (by simp) (by slots_tac hnd) hfu
     refine ⟨a'.putBack del, ?_, Rep.congr (a := a') (fun _ _ => rfl) h2, ?_, by simp [Arena.putBack, hs],
-      by simp [Arena.putBack, hd]⟩
+      by simp [Arena.putBack, hd], ?_, ?_⟩
     · simp only [Arena.unlink, T.rootIdx, hne, if_true, Option.bind_eq_bind, Option.pure_def, Option.bind_assoc] at h1 ⊢
       rw [← Option.bind_assoc, h1]
       rfl
     · rw [putBack_pool]; simp [poolOf, hu, hcap, hs]
+    · intro x hx _
+      exact hfr x (by slots_tac hx)
+    · intro hz n hn
+      exact hz n (by rw [← hfr 0 (by slots_tac h0s)]; exact hn)
   | leaf =>
     have hle : nd.left = EMPTY := hl
     have hne0 : (EMPTY != EMPTY) = false := by simp
@@ -1228,14 +1324,18 @@ theorem unlink_rep {a : Arena V} (hsize : a.nodes.size ≤ EMPTY) {KK : Ctx (Ent
       rw [hri] at hrr
       have := node_lt hrr.2.choose_spec.1
       have hne : (sr != EMPTY) = true := by simp; omega
-      obtain ⟨a', h1, h2, hu, hcap, hd, hs⟩ := unlink_child hsize hc hdel hrr (by simp) (by slots_tac hnd) hfu
+      obtain ⟨a', h1, h2, hu, hcap, hd, hs, hfr⟩ := unlink_child hsize hc hdel hrr (by simp) (by slots_tac hnd) hfu
       refine ⟨a'.putBack del, ?_, Rep.congr (a := a') (fun _ _ => rfl) h2, ?_, by simp [Arena.putBack, hs],
-        by simp [Arena.putBack, hd]⟩
+        by simp [Arena.putBack, hd], ?_, ?_⟩
       · simp only [Arena.unlink, T.rootIdx, hne0, hne, Bool.false_eq_true, if_false, if_true, Option.bind_eq_bind,
           Option.pure_def, Option.bind_assoc] at h1 ⊢
         rw [← Option.bind_assoc, h1]
         rfl
       · rw [putBack_pool]; simp [poolOf, hu, hcap, hs]
+      · intro x hx _
+        exact hfr x (by slots_tac hx)
+      · intro hz n hn
+        exact hz n (by rw [← hfr 0 (by slots_tac h0s)]; exact hn)
     | leaf =>
       have hre : nd.right = EMPTY := hrr
       cases KK with
@@ -1244,7 +1344,7 @@ theorem unlink_rep {a : Arena V} (hsize : a.nodes.size ≤ EMPTY) {KK : Ctx (Ent
         obtain ⟨rfl, rfl⟩ := hm
         obtain ⟨hp, hroot⟩ := hc
         subst hp
-        refine ⟨({ a with root := EMPTY } : Arena V).putBack del, ?_, rfl, ?_, rfl, rfl⟩
+        refine ⟨({ a with root := EMPTY } : Arena V).putBack del, ?_, rfl, ?_, rfl, rfl, fun _ _ _ => rfl, fun hz => hz⟩
         · simp [Arena.unlink, T.rootIdx]
         · rw [putBack_pool]; rfl
       | cons f K =>
@@ -1260,10 +1360,13 @@ theorem unlink_rep {a : Arena V} (hsize : a.nodes.size ≤ EMPTY) {KK : Ctx (Ent
           simp only [unlinkM, show (Color.red == Color.black) = false from rfl, fixUp, fixUpD_false, Option.map_some,
             Option.some.injEq, Prod.mk.injEq] at hm
           obtain ⟨rfl, rfl⟩ := hm
-          obtain ⟨a1, h1, hc1, _, hroot1, hu1, hcap1, hd1, hs1⟩ :=
+          obtain ⟨a1, h1, hc1, hoth1, hroot1, hu1, hcap1, hd1, hs1⟩ :=
             removeParentsChild_ctx (new := EMPTY) hsize hc hdsib hdne hndc
+          have h0f : (0 : Nat) ≠ f.s := by slots_tac h0s
           refine ⟨a1.putBack del, ?_, Rep.congr (a := a1) (fun _ _ => rfl) (Rep.plug hc1 (rfl : Rep a1 EMPTY f.s .leaf)), ?_,
-            by simp [Arena.putBack, hs1], by simp [Arena.putBack, hd1]⟩
+            by simp [Arena.putBack, hs1], by simp [Arena.putBack, hd1],
+            fun x hx _ => hoth1 x (by slots_tac hx),
+            fun hz n hn => hz n (by rw [← hoth1 0 h0f]; exact hn)⟩
           · simp only [Arena.unlink, T.rootIdx, hne0, Bool.false_eq_true, if_false, hpne, isRedC,
               show (Color.red == Color.red) = true from rfl, Bool.not_true, Option.bind_eq_bind, Option.pure_def, h1,
               Option.bind_some]
@@ -1291,9 +1394,9 @@ theorem unlink_rep {a : Arena V} (hsize : a.nodes.size ≤ EMPTY) {KK : Ctx (Ent
           have hN : Rep a2 0 f.s (.node .red .leaf 0 n0.ent .leaf) := ⟨rfl, _, h20, rfl, rfl, rfl, rfl, rfl⟩
           have hsize2 : a2.nodes.size ≤ EMPTY := by rw [hs2]; simpa [a1] using hsize
           have hfuel : (f :: K).length < a.nodes.size + 1 := ctx_fuel hc hndc
-          obtain ⟨a3, h3, hc3, hn3, hu3, hcap3, hd3, hs3⟩ := fixDelete_rep (a.nodes.size + 1) a2 (f :: K) _ 0 f.s
+          obtain ⟨a3, h3, hc3, hn3, hu3, hcap3, hd3, hs3, hfr3⟩ := fixDelete_rep (a.nodes.size + 1) a2 (f :: K) _ 0 f.s
             hsize2 hfuel hc2 hN (by simp) (by simpa [T.slots_node] using List.nodup_cons.mpr ⟨h0k, hndc⟩) K2 d2 hfu
-          obtain ⟨_, n3, hn3', hn3p, _⟩ := hn3
+          obtain ⟨_, n3, hn3', hn3p, _, _, hn3l, hn3r⟩ := hn3
           -- unlink the scratch node again
           cases K2 with
           | nil => obtain ⟨hpe, _⟩ := hc3; omega
@@ -1305,9 +1408,26 @@ theorem unlink_rep {a : Arena V} (hsize : a.nodes.size ≤ EMPTY) {KK : Ctx (Ent
             have h0sib : (0 : Nat) ∉ f'.sib.slots := by
               intro h; apply h0k'; simp [ctxSlots, h]
             rw [hp'] at hc3
-            obtain ⟨a4, h4, hc4, _, _, hu4, hcap4, hd4, hs4⟩ :=
+            obtain ⟨a4, h4, hc4, hoth4, _, hu4, hcap4, hd4, hs4⟩ :=
               removeParentsChild_ctx (a := a3) (new := EMPTY) (by rw [hs3]; exact hsize2) hc3 h0sib (by decide) hndc'
-            refine ⟨a4.putBack del, ?_, Rep.congr (a := a4) (fun _ _ => rfl) (Rep.plug hc4 (rfl : Rep a4 EMPTY f'.s .leaf)), ?_, ?_, ?_⟩
+            refine ⟨a4.putBack del, ?_, Rep.congr (a := a4) (fun _ _ => rfl) (Rep.plug hc4 (rfl : Rep a4 EMPTY f'.s .leaf)), ?_, ?_, ?_, ?_, ?_⟩
+            rotate_left 4
+            · intro x hx hx0
+              have hxf : x ≠ f.s := by slots_tac hx
+              show a4.node x = a.node x
+              rw [hoth4 x (by rw [← hp']; exact hxf), hfr3 x (by
+                simp only [T.slots_node, T.slots_leaf, List.nil_append, List.append_nil, List.cons_append, List.mem_cons, not_or]
+                exact ⟨hx0, by slots_tac hx⟩), hoth2 x hxf]
+              simp [a1, Ne.symm hx0]
+            · intro _ n hn
+              have h40 : a4.node 0 = some n3 := by
+                show a4.node 0 = _
+                rw [hoth4 0 (by rw [← hp']; exact h0f), hn3']
+              have : n = n3 := by
+                have hn' : a4.node 0 = some n := hn
+                rw [h40] at hn'; exact (Option.some.inj hn').symm
+              subst this
+              exact ⟨Or.inr hn3l, Or.inr hn3r⟩
             · simp only [Arena.unlink, T.rootIdx, hne0, Bool.false_eq_true, if_false, hpne, isRedC,
                 show (Color.black == Color.red) = false from rfl, Bool.not_false, if_true, Option.bind_eq_bind,
                 Option.pure_def]
